@@ -18,6 +18,9 @@ synchronous phase under one of two schedulers (harness/agreement/zz_verif_c05_te
   * PANIC     no Service goroutine panics (incl. the corpus schedule corpus/C01/stalecert-bundle-panic.sched, the progress defect
               fixed by /repo 8b2abd4067: a stale cert bundle killed the node, again after every restart);
   * DEADLINES within a period the step deadline of a node strictly increases from step to step, and no timer was refused;
+  * FRESHEST  after every handle of the real player the freshest threshold event of its round known to its own vote tracker has been
+              acted on (period entered / block committed) — also when it was collected before the node entered the round (pipelined
+              threshold events, player.enterRound);
   * ACCEPT    the trace acceptor of C01 (c01abs = checkEv of the proved safety model) still accepts every (schedule, round) history
               and all EnsureBlock digests of a round agree.
 Replay = the schedule (header + decisions incl. the `sync` line), re-executed by TestVerifC05 (or TestVerifNetDrive for C01's corpus)."""
@@ -42,6 +45,13 @@ def kvs(line):
 def progress(sched, log):
     """Monitors of one schedule from its decisions and its concrete log.  Returns a dict; `problems` = list of (kind, text)."""
     res = {"synced": False, "problems": [], "k": None, "per_node": {}, "fires": {"t": 0, "f": 0}, "dl_checked": 0}
+    for l in log:
+        if l.startswith("PIPELINE "):
+            g = kvs(l)
+            res["problems"].append(("pipeline", "node %s entered round %s and is in period %s step %s, but the freshest threshold of that round known to its own vote tracker "
+                                    "(event type %s of period %s, value %s) was not acted on: %s (pipelined threshold event lost?)"
+                                    % (g["node"], g["round"], g["period"], g["step"], g["fresh"], g["freshperiod"], g["val"], g["what"])))
+            break
     si = next((i for i, l in enumerate(log) if l.startswith("SYNC ")), None)
     if si is None:
         return res
@@ -209,6 +219,7 @@ def analyse(ctx, shard, stats, corpus_name=None, test="TestVerifC05"):
         pr = progress(scheds[sid], log)
         if not pr["synced"]:
             stats["unsynced"] += 1
+            report(ctx, stats, pr, replay)
             continue
         stats["synced"] += 1
         stats["modes"][pr["mode"]] = stats["modes"].get(pr["mode"], 0) + 1
@@ -238,10 +249,21 @@ def analyse(ctx, shard, stats, corpus_name=None, test="TestVerifC05"):
                                        ",".join("n%d:r%d/p%d/s%d" % (n, v["round"], v["period"], v["step"]) for n, v in sorted(pr["nodes"].items())),
                                        pr["target"], (pr["k"] + pr["P0"]) if pr["k"] is not None else "-", pr["P0"], pr["k"], int((pr["end"] or {}).get("decisions", 0)),
                                        pr["fires"]["t"], pr["fires"]["f"]))
-        for kind, text in pr["problems"][:2]:
-            stats["problems"][kind] = stats["problems"].get(kind, 0) + 1
-            if stats["problems"][kind] <= 3:
-                ctx.violation(("no progress: " if kind == "progress" else "deadlines do not increase: ") + text, dict(replay, monitor=kind), found_input=True)
+        report(ctx, stats, pr, replay)
+
+
+PREFIX = {"progress": "no progress: ", "deadline": "deadlines do not increase: ", "pipeline": "freshest threshold not acted on: "}
+
+
+def report(ctx, stats, pr, replay):
+    seen = set()
+    for kind, text in pr["problems"]:
+        if kind in seen:
+            continue
+        seen.add(kind)
+        stats["problems"][kind] = stats["problems"].get(kind, 0) + 1
+        if stats["problems"][kind] <= 2:
+            ctx.violation(PREFIX[kind] + text, dict(replay, monitor=kind), found_input=True)
 
 
 def new_stats():
